@@ -16,8 +16,10 @@
 (*          are judged in every such list by the invariant.                *)
 (*  "free": every interleaving of Add (incl. overwrite) / Remove / Check   *)
 (*          over the *core* rule domain (10 rules).                        *)
-(* Domain = "product" (a 1440-rule product domain, packets with port 0) is *)
-(* used with -simulate only (stimulus for the implementation).             *)
+(* Domain = "product" (a 1440-rule product domain, 304 packets) is used    *)
+(* with -simulate (MC_AclSim.cfg: stimulus for the implementation);        *)
+(* Domain = "wide" (a 720-rule product domain) in the thorough tier for    *)
+(* "fill" over 2 positions (MC_AclWide.cfg).                               *)
 EXTENDS Acl, TLC
 
 CONSTANTS NPos, MaxRules, Modes, Domain
@@ -68,12 +70,21 @@ ProductParts ==
     \X {<<AnyN, AnyN>>, <<3, AnyN>>, <<0, 2>>}
     \X {AnyN, 0, 80} \X {AnyN, 0, 53, 80}
 
+WideParts ==
+    {AnyP, "tcp", "udp", "icmp"}
+    \X {<<AnyN, AnyN>>, <<1, AnyN>>, <<1, 0>>, <<2, 1>>, <<1, 2>>}
+    \X {<<AnyN, AnyN>>, <<3, AnyN>>, <<0, 2>>}
+    \X {AnyN, 80} \X {AnyN, 0, 80}
+
 RulesOf(parts) == {R(a, t[1], t[2], t[3], t[4], t[5], t[6], t[7]) : a \in Acts, t \in parts}
 CoreRules  == RulesOf(CoreParts)
 CoverRules == RulesOf(CoverParts)
-ProductRules == {R(a, t[1], t[2][1], t[2][2], t[3][1], t[3][2], t[4], t[5]) : a \in Acts, t \in ProductParts}
+ProductOf(parts) == {R(a, t[1], t[2][1], t[2][2], t[3][1], t[3][2], t[4], t[5]) : a \in Acts, t \in parts}
+ProductRules == ProductOf(ProductParts)
+WideRules == ProductOf(WideParts)
 
 FreeRules == IF Domain = "product" THEN ProductRules ELSE CoreRules
+FillRules == IF Domain = "wide" THEN WideRules ELSE CoverRules
 
 PktPorts == IF Domain = "product" THEN {0, 53, 80} ELSE {0, 80}
 Packets ==
@@ -138,7 +149,7 @@ MCCheck(p) ==
 (* therefore split on purpose only by rule action (2), protocol (3) - giving behaviours with   *)
 (* about 1/3 Add, 1/2 Check, 1/6 Remove - and otherwise range over state-level sets.           *)
 AddStep    == \E a \in Acts : \E i \in Pos, r \in {x \in FreeRules : x.action = a} : MCAdd(i, r)
-FillStep   == \E i \in Pos, r \in CoverRules : MCFill(i, r)
+FillStep   == \E i \in Pos, r \in FillRules : MCFill(i, r)
 RemoveStep == \E i \in Pos : MCRemove(i)
 CheckStep  == \E q \in {"tcp", "udp", "icmp"} : \E i \in Pos, p \in {x \in Packets : x.proto = q} : i = 0 /\ MCCheck(p)
 
